@@ -12,26 +12,36 @@
 #[derive(Clone, Copy)] pub struct SinkH {}
 impl UpSrc { pub fn into(self) -> (r: Self) ensures r == self { self } }
 
+impl<$TP> Handle<$G, Message<$O, Tok_sink_talkback>> for SinkH {
+    type HH = $HEAP;
+    type CC = Cap;
+    open spec fn gate(&self, k: int, h: $HEAP, g: $G, c: Cap, m: Message<$O, Tok_sink_talkback>) -> bool {
+        if k == $GATE_NO_PULL_DOWN { !(m is Pull) }
+        else if k == $GATE_GREET_ONCE { m is Handshake ==> g.dn.phase == Dn::NotGreeted }
+        else if k == $GATE_GREET_FIRST { !(m is Handshake) ==> g.dn.phase != Dn::NotGreeted }
+        else if k == $GATE_AFTER_TERM { !(m is Handshake) ==> g.dn.phase != Dn::EndedByUs }
+        else if k == $GATE_AFTER_DISPOSAL { !(m is Handshake) ==> g.dn.phase != Dn::EndedBySink }
+        else if k == $GATE_NO_ORPHAN { m is Terminate || m is Error ==> g.up.phase != Up::Live }
+        else if k == $GATE_UNREQUESTED { m is Data && c.pullable ==> g.dn.data.len() < g.dn.pulls }
+        else { true }
+    }
+    open spec fn post(&self, g: $G, m: Message<$O, Tok_sink_talkback>) -> $G { $GNAME { dn: dn_send(g.dn, m), ..g } }
+    open spec fn needs_inv(&self, g: $G, m: Message<$O, Tok_sink_talkback>) -> bool { !(m is Terminate || m is Error) }
+}
 impl SinkH {
     /// the operator delivers `m` to its sink
     #[verifier::exec_allows_no_decreases_clause]
     pub fn call<$TP>(&self, h: &mut $HEAP, g: &mut Ghost<$G>, c: &Cap, m: Message<$O, Tok_sink_talkback>)
         requires
-            !(m is Pull), /* @C04 an operator never pulls its sink */
-            m is Handshake ==> old(g)@.dn.phase == Dn::NotGreeted, /* @C01 greet-once */
-            !(m is Handshake) ==> old(g)@.dn.phase != Dn::NotGreeted, /* @C01 greet-first */
-            !(m is Handshake) ==> old(g)@.dn.phase != Dn::EndedByUs, /* @C02 nothing after termination */
-            !(m is Handshake) ==> old(g)@.dn.phase != Dn::EndedBySink, /* @C03 nothing after disposal */
-            m is Terminate || m is Error ==> old(g)@.up.phase != Up::Live, /* @C04 no live upstream left behind */
-            m is Data && c.pullable ==> old(g)@.dn.data.len() < old(g)@.dn.pulls, /* @C14 no unrequested data */
-            !(m is Terminate || m is Error) ==> INV!(*old(h), $GNAME { dn: dn_send(old(g)@.dn, m), ..old(g)@ }, *c),
+            GATES!(self, *old(h), old(g)@, *c, m),
+            self.needs_inv(old(g)@, m) ==> INV!(*old(h), self.post(old(g)@, m), *c),
         ensures
-            !(m is Terminate || m is Error) ==> INV!(*final(h), final(g)@, *c),
-            mono(*old(h), $GNAME { dn: dn_send(old(g)@.dn, m), ..old(g)@ }, *final(h), final(g)@),
-            sink_rel(*old(h), $GNAME { dn: dn_send(old(g)@.dn, m), ..old(g)@ }, *final(h), final(g)@, *c),
-            (m is Terminate || m is Error) ==> *final(h) == *old(h) && final(g)@ == ($GNAME { dn: dn_send(old(g)@.dn, m), ..old(g)@ }),
+            self.needs_inv(old(g)@, m) ==> INV!(*final(h), final(g)@, *c),
+            mono(*old(h), self.post(old(g)@, m), *final(h), final(g)@),
+            sink_rel(*old(h), self.post(old(g)@, m), *final(h), final(g)@, *c),
+            !self.needs_inv(old(g)@, m) ==> *final(h) == *old(h) && final(g)@ == self.post(old(g)@, m),
     {
-        proof { g@ = $GNAME { dn: dn_send(g@.dn, m), ..g@ }; }
+        proof { g@ = self.post(g@, m); }
         if matches!(m, Message::Terminate | Message::Error(_)) { return; }  // a terminated sink is silent
         let ghost h0 = *h; let ghost g0 = g@;
         loop
@@ -52,24 +62,34 @@ impl SinkH {
         }
     }
 }
+impl<$TP> Handle<$G, Message<Never, Never>> for UpTb {
+    type HH = $HEAP;
+    type CC = Cap;
+    open spec fn gate(&self, k: int, h: $HEAP, g: $G, c: Cap, m: Message<Never, Never>) -> bool {
+        if k == $GATE_UP_KIND { m is Pull || m is Terminate || m is Error }
+        else if k == $GATE_UP_GREETED { g.up.phase != Up::Idle && g.up.phase != Up::Subscribing }
+        else if k == $GATE_UP_PULL_LIVE { m is Pull ==> !up_over(g.up.phase) }
+        else if k == $GATE_UP_TERM_ONCE { !(m is Pull) ==> g.up.phase != Up::EndedByUs }
+        else if k == $GATE_UP_TERM_SELF { !(m is Pull) ==> g.up.phase != Up::EndedBySelf && g.up.phase != Up::ErroredBySelf }
+        else { true }
+    }
+    open spec fn post(&self, g: $G, m: Message<Never, Never>) -> $G { $GNAME { up: up_send(g.up, m), ..g } }
+    open spec fn needs_inv(&self, g: $G, m: Message<Never, Never>) -> bool { m is Pull }
+}
 impl UpTb {
     /// the operator talks to its upstream on the talkback it was greeted with
     #[verifier::exec_allows_no_decreases_clause]
     pub fn call<$TP>(&self, h: &mut $HEAP, g: &mut Ghost<$G>, c: &Cap, m: Message<Never, Never>)
         requires
-            m is Pull || m is Terminate || m is Error, /* @C04 only Pull/Terminate/Error go upstream */
-            old(g)@.up.phase != Up::Idle && old(g)@.up.phase != Up::Subscribing, /* @C04 nothing before the upstream greeted */
-            m is Pull ==> old(g)@.up.phase == Up::Live, /* @C04 no Pull to an upstream that is over */
-            !(m is Pull) ==> old(g)@.up.phase != Up::EndedByUs, /* @C04 upstream terminated at most once */
-            !(m is Pull) ==> old(g)@.up.phase != Up::EndedBySelf && old(g)@.up.phase != Up::ErroredBySelf, /* @C04 no termination of an upstream that ended by itself */
-            m is Pull ==> INV!(*old(h), $GNAME { up: up_send(old(g)@.up, m), ..old(g)@ }, *c),
+            GATES!(self, *old(h), old(g)@, *c, m),
+            self.needs_inv(old(g)@, m) ==> INV!(*old(h), self.post(old(g)@, m), *c),
         ensures
-            m is Pull ==> INV!(*final(h), final(g)@, *c),
-            m is Pull ==> mono(*old(h), $GNAME { up: up_send(old(g)@.up, m), ..old(g)@ }, *final(h), final(g)@),
-            m is Pull ==> up_rel(*old(h), $GNAME { up: up_send(old(g)@.up, m), ..old(g)@ }, *final(h), final(g)@, *c),
-            !(m is Pull) ==> *final(h) == *old(h) && final(g)@ == ($GNAME { up: up_send(old(g)@.up, m), ..old(g)@ }),
+            self.needs_inv(old(g)@, m) ==> INV!(*final(h), final(g)@, *c),
+            self.needs_inv(old(g)@, m) ==> mono(*old(h), self.post(old(g)@, m), *final(h), final(g)@),
+            self.needs_inv(old(g)@, m) ==> up_rel(*old(h), self.post(old(g)@, m), *final(h), final(g)@, *c),
+            !self.needs_inv(old(g)@, m) ==> *final(h) == *old(h) && final(g)@ == self.post(old(g)@, m),
     {
-        proof { g@ = $GNAME { up: up_send(g@.up, m), ..g@ }; }
+        proof { g@ = self.post(g@, m); }
         if matches!(m, Message::Terminate | Message::Error(_)) { return; }   // a terminated source is silent
         up_events(h, g, c);
     }
@@ -101,20 +121,30 @@ pub fn up_events<$TP>(h: &mut $HEAP, g: &mut Ghost<$G>, c: &Cap)
         }
     }
 }
+impl<$TP> Handle<$G, Message<Never, Tok_source_talkback>> for UpSrc {
+    type HH = $HEAP;
+    type CC = Cap;
+    open spec fn gate(&self, k: int, h: $HEAP, g: $G, c: Cap, m: Message<Never, Tok_source_talkback>) -> bool {
+        if k == $GATE_SUB_KIND { m is Handshake }
+        else if k == $GATE_SUB_ONCE { g.up.phase == Up::Idle }
+        else if k == $GATE_SUB_OVER { !dn_over(g.dn.phase) }
+        else { true }
+    }
+    open spec fn post(&self, g: $G, m: Message<Never, Tok_source_talkback>) -> $G { $GNAME { up: UpLink { phase: Up::Subscribing, ..g.up }, ..g } }
+    open spec fn needs_inv(&self, g: $G, m: Message<Never, Tok_source_talkback>) -> bool { true }
+}
 impl UpSrc {
     /// the operator subscribes to its upstream source
     #[verifier::exec_allows_no_decreases_clause]
     pub fn call<$TP>(&self, h: &mut $HEAP, g: &mut Ghost<$G>, c: &Cap, m: Message<Never, Tok_source_talkback>)
         requires
-            m is Handshake, /* @C04 a source is only ever greeted */
-            old(g)@.up.phase == Up::Idle, /* @C04 upstream subscribed at most once */
-            !dn_over(old(g)@.dn.phase), /* @C04 nothing subscribed once the output is over */
-            INV!(*old(h), $GNAME { up: UpLink { phase: Up::Subscribing, ..old(g)@.up }, ..old(g)@ }, *c),
+            GATES!(self, *old(h), old(g)@, *c, m),
+            self.needs_inv(old(g)@, m) ==> INV!(*old(h), self.post(old(g)@, m), *c),
         ensures
             INV!(*final(h), final(g)@, *c),
-            mono(*old(h), $GNAME { up: UpLink { phase: Up::Subscribing, ..old(g)@.up }, ..old(g)@ }, *final(h), final(g)@),
+            mono(*old(h), self.post(old(g)@, m), *final(h), final(g)@),
     {
-        proof { g@ = $GNAME { up: UpLink { phase: Up::Subscribing, ..g@.up }, ..g@ }; }
+        proof { g@ = self.post(g@, m); }
         // a conformant source greets inside the subscribing call ...
         $OP__source_talkback(h, g, c, Message::Handshake(UpTb {}));
         // ... and may emit, end or fail before returning
